@@ -9,10 +9,15 @@ META = {
             "(bound_values_are_one_literal, json_values_are_one_literal), a literal with a quote-safe body has the same token kinds in any "
             "context (frame_determines_shape), and every leaf / expression the account, transaction, aggregated-balance and log query contexts "
             "render for a client value has the token kinds it has for the harmless twin of that value, or is rejected (address_is_data, "
-            "address_on_tx_is_data, rejected_or_data, filter_rejected_or_data).  The model is tied to the real v1/v2 routers + controllers + ledgerstore "
+            "address_on_tx_is_data, rejected_or_data, key_rejected_or_data (every key STRING: of the key only a captured metadata key / asset name reaches the statement, inside a literal), "
+            "filter_rejected_or_data).  The model is tied to the real v1/v2 routers + controllers + ledgerstore "
             "over bun and a recording database/sql driver: the model's where-fragment must be the only place where the captured SQL of the hostile "
             "run differs from its twin's; an independent Python tokenizer evaluates the property on the captured SQL (L3) and is cross-checked "
-            "against the Lean scanner on every captured statement and on random metacharacter soup.",
+            "against the Lean scanner on every captured statement and on random metacharacter soup.  Besides hostile VALUES through the keys of the catalogue the generator sends "
+            "hostile KEYS (SQL in front of / glued with a dot to / behind / inside the brackets of every known key, every table-qualified known key, every column of the tables of "
+            "the schema of this run and a list of plausible words; the twin blanks the fragment and keeps the base) and asks the code of this run which candidate keys it accepts: a key "
+            "it accepts that the catalogue does not list gets the whole hostile-value set; 'accepted key unknown to the model' is a finding of the differential by itself, and the "
+            "model-independent tokenizer oracle judges those cases all the same.",
     "note": "Trusted: Lean kernel; Model.SqlText.lex as a model of PostgreSQL's scanner with standard_conforming_strings=on (documented simplifications "
             "none of which moves a literal boundary); bun 1.1.16 AppendString/AppendJSON and Go's encoding/json string escaping are modelled, tied by the "
             "differential, not proved from their sources; SQL is captured as text, never executed (no PostgreSQL in the sandbox). "
@@ -246,6 +251,10 @@ def family(ep):
 
 def key_class(inp):
     k = inp.get("qkey") or inp["key"]
+    if inp.get("family") == "hostile-key":
+        return "hostile-key"
+    if inp.get("discovered"):
+        return "key-unknown-to-the-model"
     if inp["pos"] in ("key", "op", "pit", "path"):
         return inp["pos"]
     if k.startswith("metadata"):
@@ -304,6 +313,7 @@ def oracle(inp, out):
 def l2(ctx, inputs, impl, model):
     """correspondence: the model's outcome and where-fragment against the captured SQL"""
     bad = {"outcome": 0, "fragment": 0, "frame": 0, "twin": 0}
+    unknown_keys = set()
     cmp_ = {"outcome": 0, "fragment": 0, "frame": 0}
     for inp in inputs:
         i = inp["id"]
@@ -327,6 +337,14 @@ def l2(ctx, inputs, impl, model):
             if "rejected" in mo:
                 if not rejected(io):
                     what = "model rejects (%s), implementation sent SQL / answered %s" % (mo["rejected"], io.get("status"))
+                    if inp.get("discovered") or inp.get("family") == "hostile-key":
+                        # the code accepts a filter key the model does not know: a finding of the differential by itself
+                        # (the hostile values / keys sent through it are judged by the tokenizer oracle all the same)
+                        bad["accepted_key_unknown_to_the_model"] = bad.get("accepted_key_unknown_to_the_model", 0) + 1
+                        unknown_keys.add("%s %s %s" % (inp["api"], inp["ep"], (inp.get("qkey") or inp["key"]) if inp.get("discovered") else inp["hostile" if side == "h" else "harmless"]))
+                        if not any(b.get("stream") == "sqltext:accepted-key-unknown-to-the-model" for b in ctx.l2_broken):
+                            ctx.l2_broken.append({"stream": "sqltext:accepted-key-unknown-to-the-model", "id": i, "input": inp, "side": side, "impl": io, "model": mo, "what": what})
+                        continue
             elif rejected(io):
                 what = "implementation rejected (status %s), model renders %r" % (io.get("status"), mo)
             elif "frag" in mo:
@@ -359,6 +377,7 @@ def l2(ctx, inputs, impl, model):
         ctx.cov.setdefault("compared", {})["sqltext:" + k] = cmp_[k]
     for k in bad:
         ctx.cov.setdefault("disagreements", {})["sqltext:" + k] = bad[k]
+    ctx.cov["keys_accepted_by_the_code_and_unknown_to_the_model"] = sorted(unknown_keys)[:40]
 
 
 SOUP = ["'", "''", "\\", "\\'", '"', '""', "$$", "$a$", "$a", "$1", "$", "--", "/*", "*/", ";", "?", "(", ")", "::", ":", ":=", " ", "\n", "\r\n", "\t",
@@ -413,6 +432,24 @@ def observations(ctx):
     ctx.cov["out_of_quantifier_observations"] = obs
 
 
+def schema_columns():
+    """table.column for every column of every table created by the ledgerstore migrations of THIS run's /repo (candidates for filter keys)"""
+    d = os.path.join(REPO, "internal", "storage", "ledgerstore", "migrations")
+    out = []
+    if not os.path.isdir(d):
+        return out
+    for f in sorted(os.listdir(d)):
+        if not f.endswith(".sql"):
+            continue
+        src = open(os.path.join(d, f), errors="replace").read()
+        for m in re.finditer(r"create\s+table\s+(?:if\s+not\s+exists\s+)?\"?(\w+)\"?\s*\((.*?)\n\)\s*;", src, re.S | re.I):
+            for line in m.group(2).split("\n"):
+                w = re.match(r"\s*\"?([a-z_][a-z0-9_]*)\"?\s+[a-z]", line, re.I)
+                if w and w.group(1).lower() not in ("primary", "unique", "constraint", "foreign", "check", "exclude", "like"):
+                    out.append("%s.%s" % (m.group(1), w.group(1)))
+    return sorted(set(out))
+
+
 def run(ctx):
     ctx.cov["trusted_base"] = [
         "Lean 4.33 kernel; axioms allowed: propext, Classical.choice, Quot.sound",
@@ -429,6 +466,10 @@ def run(ctx):
     ctx.l1()
     if not (ctx.ensure_driver() and ctx.ensure_harness()):
         return
+    cols = schema_columns()
+    ctx.cov["schema_columns_read"] = len(cols)
+    if cols:
+        os.environ["VERIF_SQL_COLUMNS"] = ",".join(cols)
     n = 8 if ctx.quick else 1200
     r = pipeline(ctx, "sqltext", n)
     if r is None:
@@ -468,6 +509,17 @@ def run(ctx):
             if nontrivial(inp["hostile"]):
                 rr["nontrivial"] += 1
         rr["rejected" if rejected(h) else "sql"] += 1
+    fam = {}
+    for inp in inputs:
+        f = inp.get("family")
+        out = impl.get(inp["id"])
+        if not f or out is None:
+            continue
+        e = fam.setdefault(f, {"cases": 0, "rejected": 0, "sent_sql": 0, "twin_sent_sql": 0})
+        e["cases"] += 1
+        e["rejected" if rejected(out["h"]) else "sent_sql"] += 1
+        e["twin_sent_sql"] += 0 if rejected(out["t"]) or not out["t"].get("sql") else 1
+    ctx.cov["key_families"] = fam
     lexer_crosscheck(ctx, list(sqls), 1500 if ctx.quick else 60000)
     per_row = {}
     for inp in inputs:
@@ -482,7 +534,8 @@ def run(ctx):
                        "parameters and v2 bodies offer (%d rows) x %d fixed hostile/plain strings (+ the corpus) + %d seeded random compositions of SQL/bun/JSON "
                        "metacharacters per row; each case is run with the string and with its harmless twin (same length, every character 'a', ':' kept "
                        "for address patterns), with random point-in-time / expand / $and-$or wrapping; distinct = distinct (row, string); non-trivial = the "
-                       "string contains one of ' \" \\ ; $ ? NUL -- /*") % (len(rows), n_fixed, n)
+                       "string contains one of ' \" \\ ; $ ? NUL -- /*; + hostile keys (family hostile-key: per key row ~360 compositions of an SQL fragment with a key-like base) "
+                       "+ hostile values through keys discovered at generation time (family discovered-key; none on the unchanged code)") % (len(rows), n_fixed, n)
     ctx.cov["outcomes"] = stats
     ctx.cov["rows"] = len(rows)
     ctx.cov["rows_without_nontrivial_string"] = sum(1 for r in rows.values() if r["nontrivial"] == 0)
